@@ -277,7 +277,7 @@ def _desc(e):
 
 def execute(case):
     finding, info = run_history(case)
-    res = {"clean": True, "digest": common.digest([case, finding]),
+    res = {"clean": True, "digest": common.digest([case, finding and finding[0]]),
            "counters": {"ttype:" + case["ttype"]: 1, "ops": info["ops"]},
            "nontrivial": info["interior_removed"] and info["pop_after"],
            "case_digest": common.digest8(case)}
